@@ -226,7 +226,7 @@ impl SwiftField for Field25AccountIdentification {
     {
         match variant {
             Some("P") => Ok(Field25AccountIdentification::P(Field25P::parse(value)?)),
-            Some("") => Ok(Field25AccountIdentification::NoOption(
+            None | Some("") => Ok(Field25AccountIdentification::NoOption(
                 Field25NoOption::parse(value)?,
             )),
             _ => Self::parse(value),
